@@ -1224,3 +1224,55 @@ def warm_dag(fmts=("2a", "pack-0.92")):
         shutil.rmtree(scratch, ignore_errors=True)
         world.reset_stores()
     _dag_warmed = True
+
+
+def stacked_local_problems(url, mh, info=None):
+    """The strong local statement of C08 for the stacked repository at `url`, judged on
+    Repository.open(url) (no fallbacks attached): inventories of own revisions and of
+    their non-ghost parents iterate, and every entry of an own revision whose text key no
+    present parent carries has its text locally.  Yields (what, detail).  `info["split"]`
+    is set when some own revision has a parent that lives only in the fallback."""
+    from breezy.repository import Repository
+
+    full = open_branch(url).repository
+    alone = Repository.open(url)
+    if alone._fallback_repositories:
+        raise RuntimeError("Repository.open unexpectedly attached fallbacks")
+    rich = alone.supports_rich_root()
+    with alone.lock_read(), full.lock_read():
+        own = sorted(k[0].decode() for k in alone.revisions.keys())
+        for rid in own:
+            if rid not in mh.revs:
+                continue
+            parents = [p for p in mh.revs[rid]["parents"] if full.has_revision(p.encode())]
+            carried = set()
+            mine = None
+            for p in [rid] + parents:
+                try:
+                    t = alone.revision_tree(p.encode())
+                    ents = [(ie.file_id, ie.revision, ie.kind, ie.parent_id) for _path, ie in t.iter_entries_by_dir()]
+                except Exception as e:  # noqa: BLE001
+                    what = "own-inventory" if p == rid else "parent-inventory"
+                    yield (what + ":" + type(e).__name__, f"with fallbacks detached the {what} {p} of own revision {rid} cannot be read: {type(e).__name__}: {str(e)[:300]} (own revisions {own}, local inventories {sorted(k[0].decode() for k in alone.inventories.keys())})")
+                    return
+                if p == rid:
+                    mine = ents
+                else:
+                    carried.update((f, r) for f, r, _k, _p in ents)
+            need = [(f, r) for f, r, k, par in mine if (f, r) not in carried and not (par is None and not rich)]
+            present = alone.texts.get_parent_map(need)
+            missing = sorted(k for k in need if k not in present)
+            if missing:
+                yield ("text-missing", f"with fallbacks detached, texts {missing[:4]} that own revision {rid} introduces relative to its parents {parents} are not in the stacked repository")
+                return
+            for rec in alone.texts.get_record_stream(need, "unordered", True):
+                if rec.storage_kind == "absent":
+                    yield ("text-unreadable", f"text {rec.key} of own revision {rid} absent from the stacked repository alone")
+                    return
+                try:
+                    rec.get_bytes_as("fulltext")
+                except Exception as e:  # noqa: BLE001
+                    yield ("text-unreadable:" + type(e).__name__, f"text {rec.key} of own revision {rid} cannot be reconstructed without the fallback: {type(e).__name__}: {str(e)[:300]}")
+                    return
+            if info is not None and any(not alone.has_revision(p.encode()) for p in parents):
+                info["split"] = True
